@@ -85,6 +85,35 @@ def ref_cases(r, tier):
     return cases
 
 
+def boundary_cases(r, driver, tier):
+    """reference OPENs whose optional parameters add up to exactly 255, 254, 253, 252 octets (the largest values of the
+    one-octet length) and to a few values below: a base of known capabilities is padded with one parameter holding one
+    capability the decoder has no name for (round 10: a decoder that treats Opt Parm Len 255 specially was unseen)"""
+    out = []
+    bases = []
+    for _ in range(40 if tier == 'quick' else 400):
+        asn = r.choice(AS_POOL)
+        kindsel = [r.choice(CAP_KINDS) for _ in range(r.choice([0, 1, 2, 4]))]
+        if asn > 65535 and 'as4' not in kindsel:
+            kindsel.append('as4')
+        caps = [rnd_cap(r, kd, asn) for kd in kindsel]
+        params = [[c] for c in caps] if r.random() < 0.5 else ([caps] if caps else [])
+        bases.append((asn, r.choice(HOLD_POOL), r.choice(G.ADDRS[1:]), params))
+    sres = driver.batch([{'op': 'spec.refopen', 'asn': a, 'hold_time': h, 'bgp_id': b, 'params': p} for (a, h, b, p) in bases])
+    for (a, h, b, p), so in zip(bases, sres):
+        if 'hex' not in so:
+            continue
+        ln = len(so['hex']) // 2 - 10
+        for target in (255, 254, 253, 252, 129, 128, 127):
+            pad = target - ln - 4
+            if 0 <= pad <= 251:
+                code = r.choice([c for c in [0, 3, 66, 127, 129, 254, 255] if c not in KNOWN_CODES])
+                capu = {'k': 'unknown', 'code': code, 'body': bytes(r.getrandbits(8) for _ in range(pad)).hex()}
+                where = r.choice(['front', 'back'])
+                out.append((a, h, b, ([[capu]] + p) if where == 'front' else (p + [[capu]])))
+    return out
+
+
 def rnd_local_caps(r):
     c = {}
     if r.random() < 0.8:
@@ -179,7 +208,7 @@ def run(seed, tier, driver):
                          {'args': [v, a, h, b, c], 'hex': wire.hex(), 'decoded': got, 'expected': exp})
 
     # ---- reference encoder (Lean spec) decoded by the implementation and by the model
-    rc = ref_cases(r, tier)
+    rc = ref_cases(r, tier) + boundary_cases(r, driver, tier)
     sres = driver.batch([{'op': 'spec.refopen', 'asn': a, 'hold_time': h, 'bgp_id': b, 'params': p} for (a, h, b, p) in rc])
     bodies = []
     for (a, h, b, p), so in zip(rc, sres):
@@ -194,6 +223,8 @@ def run(seed, tier, driver):
         got = I.open_parse(body)
         res.stats.case(('ref', so['hex']), sample={'refopen': {'asn': a, 'params': p}, 'hex': so['hex'], 'impl': got})
         res.stats.hit('refopen_params_%d' % min(len(p), 5))
+        if len(body) - 10 >= 252:
+            res.stats.hit('refopen_optlen_%d' % (len(body) - 10))
         for ps in p:
             for cdesc in ps:
                 res.stats.hit('refopen_cap_' + cdesc['k'])
